@@ -202,7 +202,10 @@ func TestC10_enum_Coop(t *testing.T) {
 					for i := 0; i < s.h; i++ {
 						c.Outcomes = append(c.Outcomes, (code+i)%3)
 					}
-					if !d.Account(c, runC10(t, c)) {
+					stop := kit.Watch("C10", t.Name(), c)
+					o := runC10(t, c)
+					stop()
+					if !d.Account(c, o) {
 						return
 					}
 				}
